@@ -39,3 +39,26 @@ void fix_use (mpz_class &a, const mpz_class &b, const mpz_class &c)
   x.eval (a.get_mpz_t ());
   y.eval (a.get_mpz_t ());
 }
+
+// Fixtures for R-CXXMAP: operator functors that reach a C function with other semantics
+struct __gmp_fix_divides_floor          // judged as a `divides` functor: must truncate
+{
+  static void eval(mpz_ptr z, mpz_srcptr w, mpz_srcptr v) { mpz_fdiv_q(z, w, v); }
+};
+struct __gmp_fix_divides_good
+{
+  static void eval(mpz_ptr z, mpz_srcptr w, mpz_srcptr v) { mpz_tdiv_q(z, w, v); }
+  static void eval(mpz_ptr z, mpz_srcptr w, unsigned long l) { mpz_tdiv_q_ui(z, w, l); }
+};
+struct __gmp_fix_divides_via_shift      // reaches the floor shift through another functor
+{
+  static void eval(mpz_ptr z, mpz_srcptr w, unsigned long l) { __gmp_binary_rshift::eval(z, w, l); }
+};
+
+void fix_use_map (mpz_class &a, const mpz_class &b, const mpz_class &c)
+{
+  __gmp_fix_divides_floor::eval (a.get_mpz_t (), b.get_mpz_t (), c.get_mpz_t ());
+  __gmp_fix_divides_good::eval (a.get_mpz_t (), b.get_mpz_t (), c.get_mpz_t ());
+  __gmp_fix_divides_good::eval (a.get_mpz_t (), b.get_mpz_t (), 3UL);
+  __gmp_fix_divides_via_shift::eval (a.get_mpz_t (), b.get_mpz_t (), 3UL);
+}
